@@ -259,6 +259,11 @@ def run(ck):
 
     def first_pass(jid, job, r, m, mt):
         nonlocal mism
+        if r.startswith("(harness-crash"):
+            # the job cannot be built as a Rust value (a generator mistake, e.g. a number beyond u64): counted,
+            # never a verdict about the code
+            stats["unrepresentable_jobs"] = stats.get("unrepresentable_jobs", 0) + 1
+            return
         rf, mf = parse_payload(r), parse_payload(m)
         if tied(rf) != tied(mf):
             mism += 1
